@@ -6,6 +6,7 @@
 
 /* ghost index: stands for "every k" in the postconditions (universally quantified by being unconstrained) */
 /* ASSUMED: str.isprint / str.memeq_ci run without --pointer-overflow-check (ghost-indexed clauses made it > 400 s); bounds, pointer validity and all other checks stay on */
+size_t g_n; /* ghost: size of the object holding a NUL-terminated string */
 size_t g_k; /* harnesses keep it below the length cap: for g_k >= len every clause that mentions it is trivially true */
 
 /* printable = the real ares_isprint() macro, written out (no macros inside loop-contract text) */
@@ -36,6 +37,16 @@ __CPROVER_requires(1)
 __CPROVER_assigns()
 __CPROVER_ensures(__CPROVER_return_value == LOWER(c))
 ;
+
+/* NUL-terminated input: an object of n bytes whose last byte is 0 (any earlier NUL ends the string sooner) */
+ares_bool_t ares_str_isnum(const char *str)
+__CPROVER_requires(g_n >= 1 && g_n <= 70000 && (str == NULL || (__CPROVER_is_fresh(str, g_n) && str[g_n - 1] == 0)))
+__CPROVER_assigns()
+__CPROVER_ensures(__CPROVER_return_value == ARES_TRUE || __CPROVER_return_value == ARES_FALSE)
+__CPROVER_ensures(__CPROVER_return_value == ARES_TRUE ==> (str != NULL && str[0] >= '0' && str[0] <= '9'))
+__CPROVER_ensures((str == NULL || str[0] == 0) ==> __CPROVER_return_value == ARES_FALSE)
+;
+void h_str_isnum(void) { const char *s; g_n = nondet_size(); ares_str_isnum(s); }
 
 void h_str_isprint(void) { const char *s; size_t n; g_k = nondet_size(); __CPROVER_assume(g_k < 70000); ares_str_isprint(s, n); }
 void h_memeq_ci(void) { const unsigned char *a; const unsigned char *b; size_t n; g_k = nondet_size(); __CPROVER_assume(g_k < 70000); ares_memeq_ci(a, b, n); }
